@@ -1,7 +1,7 @@
 """C14 — all step-solver and linear-solver choices compute the same Newton step."""
 from ..gen import Gen
 from ..unit import run_unit
-from ..units.step import Newton
+from ..units.step import Newton, cross_solver_oracle
 
 PROP_FILES = ["props/C14.v"]
 TECHNIQUE = "Coq proof + exact differential correspondence"
@@ -11,3 +11,4 @@ def run(rep, tier, seed, scratch):
     g = Gen(seed)
     for u in (Newton(),):
         run_unit(rep, u, u.gen(g, tier), scratch)
+    cross_solver_oracle(rep, tier, seed)
